@@ -20,26 +20,32 @@ import re
 _m = re.search(r"(cargo test [^\n()]*--offline)", readme)
 democmd = os.environ.get("DEMO_CMD") or (_m.group(1).strip() if _m else None)
 meta = {"property": pid, "demo_cmd": democmd, "ran": []}
+RECHECK = os.environ.get("SEED_RECHECK") and os.path.exists(os.path.join(dst, "meta.json"))
+if RECHECK:
+    # the change was confirmed before: keep that record, only run the (newer) checks against it again
+    meta = json.load(open(os.path.join(dst, "meta.json")))
+    meta.setdefault("history", []).append({"when": meta.get("when"), "checks": meta.get("checks"), "caught_by": meta.get("caught_by")})
 def sh(cmd, cwd, timeout=3600):
     p = subprocess.run(cmd, shell=True, cwd=cwd, stdout=subprocess.PIPE, stderr=subprocess.STDOUT, text=True, timeout=timeout)
     return p.returncode, p.stdout
-# make sure the patch is applied in the agent's worktree
-rc, d = sh("git diff --stat -- . ':!*/tests/seed_*'", wt)
-applied = "file" in d or "changed" in d
-if not applied:
-    rc, o = sh("git apply %s" % os.path.join(dst, "patch.diff"), wt)
-crate = os.environ.get("SEED_CRATE", "starlark")
-if democmd:
-    rc1, o1 = sh(democmd, wt)
-    meta["demo_with_change"] = {"rc": rc1, "tail": o1[-600:]}
-rc2, o2 = (0, os.environ["LIB_RESULT"]) if os.environ.get("LIB_RESULT") else sh("cargo test -p %s --lib --offline 2>&1 | grep -E 'test result|FAILED|failed' | head -5" % crate, wt)
-meta["lib_tests_with_change"] = o2.strip()
-rcr, orr = sh("git apply -R %s" % os.path.join(dst, "patch.diff"), wt)
-if democmd:
-    rc3, o3 = sh(democmd, wt)
-    meta["demo_without_change"] = {"rc": rc3, "tail": o3[-300:]}
-sh("git apply %s" % os.path.join(dst, "patch.diff"), wt)
-meta["confirmed"] = bool(democmd) and meta["demo_with_change"]["rc"] != 0 and meta["demo_without_change"]["rc"] == 0 and "ok." in meta["lib_tests_with_change"] and "FAILED" not in meta["lib_tests_with_change"]
+if not RECHECK:
+    # make sure the patch is applied in the agent's worktree
+    rc, d = sh("git diff --stat -- . ':!*/tests/seed_*'", wt)
+    applied = "file" in d or "changed" in d
+    if not applied:
+        rc, o = sh("git apply %s" % os.path.join(dst, "patch.diff"), wt)
+    crate = os.environ.get("SEED_CRATE", "starlark")
+    if democmd:
+        rc1, o1 = sh(democmd, wt)
+        meta["demo_with_change"] = {"rc": rc1, "tail": o1[-600:]}
+    rc2, o2 = (0, os.environ["LIB_RESULT"]) if os.environ.get("LIB_RESULT") else sh("cargo test -p %s --lib --offline 2>&1 | grep -E 'test result|FAILED|failed' | head -5" % crate, wt)
+    meta["lib_tests_with_change"] = o2.strip()
+    rcr, orr = sh("git apply -R %s" % os.path.join(dst, "patch.diff"), wt)
+    if democmd:
+        rc3, o3 = sh(democmd, wt)
+        meta["demo_without_change"] = {"rc": rc3, "tail": o3[-300:]}
+    sh("git apply %s" % os.path.join(dst, "patch.diff"), wt)
+    meta["confirmed"] = bool(democmd) and meta["demo_with_change"]["rc"] != 0 and meta["demo_without_change"]["rc"] == 0 and "ok." in meta["lib_tests_with_change"] and "FAILED" not in meta["lib_tests_with_change"]
 # our checks against it
 res = {}
 for c in checks:
